@@ -572,7 +572,8 @@ def discrete_SIR(G, test_transmission=_simple_test_transmission_, args=(), test_
         initial_infecteds=random.sample(candidates, initial_number)
     elif G.has_node(initial_infecteds):
         initial_infecteds=[initial_infecteds]
-    #else it is assumed to be a list of nodes.
+    else: #a collection of nodes; a node named more than once is still one node
+        initial_infecteds = list(dict.fromkeys(initial_infecteds))
 
     if return_full_data:
         node_history = defaultdict(lambda : ([tmin], ['S']))
@@ -855,7 +856,8 @@ def basic_discrete_SIS(G, p, initial_infecteds=None, rho = None,
         initial_infecteds=random.sample(list(G), initial_number)
     elif G.has_node(initial_infecteds):
         initial_infecteds=[initial_infecteds]
-    #else it is assumed to be a list of nodes.
+    else: #a collection of nodes; a node named more than once is still one node
+        initial_infecteds = list(dict.fromkeys(initial_infecteds))
 
     if return_full_data:
         transmissions = []
@@ -2346,7 +2348,8 @@ def fast_nonMarkov_SIR(G, trans_time_fxn=None,
         initial_infecteds=random.sample(candidates, initial_number)
     elif G.has_node(initial_infecteds):
         initial_infecteds=[initial_infecteds]
-    #else it is assumed to be a list of nodes.
+    else: #a collection of nodes; a node named more than once is still one node
+        initial_infecteds = list(dict.fromkeys(initial_infecteds))
         
     if initial_recovereds is None:
         nR0 = 0
@@ -2779,6 +2782,8 @@ def fast_SIS(G, tau, gamma, initial_infecteds=None, rho = None, tmin=0, tmax=100
         initial_infecteds=random.sample(list(G), initial_number)
     elif G.has_node(initial_infecteds):
         initial_infecteds=[initial_infecteds]
+    else: #a collection of nodes; a node named more than once is still one node
+        initial_infecteds = list(dict.fromkeys(initial_infecteds))
 
     times = [tmin]
     S = [G.order()]
@@ -2971,6 +2976,8 @@ def fast_nonMarkov_SIS(G, trans_time_fxn=None, rec_time_fxn=None,
         initial_infecteds=random.sample(list(G), initial_number)
     elif G.has_node(initial_infecteds):
         initial_infecteds=[initial_infecteds]
+    else: #a collection of nodes; a node named more than once is still one node
+        initial_infecteds = list(dict.fromkeys(initial_infecteds))
         
     times, S, I = ([tmin], [G.order()], [0])  
 
@@ -3181,6 +3188,8 @@ def Gillespie_SIR(G, tau, gamma, initial_infecteds=None,
         initial_infecteds=random.sample(candidates, initial_number)
     elif G.has_node(initial_infecteds):
         initial_infecteds=[initial_infecteds]
+    else: #a collection of nodes; a node named more than once is still one node
+        initial_infecteds = list(dict.fromkeys(initial_infecteds))
         
     if initial_recovereds is None:
         initial_recovereds = []
@@ -3422,6 +3431,8 @@ def Gillespie_SIS(G, tau, gamma, initial_infecteds=None, rho = None, tmin = 0,
         initial_infecteds=random.sample(list(G), initial_number)
     elif G.has_node(initial_infecteds):
         initial_infecteds=[initial_infecteds]
+    else: #a collection of nodes; a node named more than once is still one node
+        initial_infecteds = list(dict.fromkeys(initial_infecteds))
         
     I = [len(initial_infecteds)]
     S = [G.order()-I[0]]
